@@ -38,7 +38,7 @@ class C06(CheckBase):
     assumptions = ['the middlebox acknowledges every notification to the provider (transport-level failures are C08)',
                    'equality with the provider is only demanded at recovery points after faults stopped']
     expected_probes = ['drop', 'dup', 'delay', 'replay', 'getmdib_race', 'seq_change', 'recover_checked',
-                       'race_buffered', 'stall_in_replay']
+                       'race_buffered', 'stall_in_replay', 'reload_overtakes_report']
     max_steps = 8_000_000
 
     def budget(self, tier):
@@ -73,10 +73,13 @@ class C06(CheckBase):
         if rng.random() < 0.35 and len(ops) > 4:
             seq_change = {'after_op': rng.randrange(1, len(ops) - 1), 'reset_version': rng.random() < 0.5,
                           'instance_only': rng.random() < 0.2}
-        return {'sched': draw_sched_config(rng, stall_ok=True), 'world': cfg, 'ops': ops, 'fates': fates,
+        race_op = g.gen_op(kinds=['metric', 'metric', 'alert', 'component'])
+        return {'sched': draw_sched_config(rng, stall_ok=True), 'world': cfg, 'ops': ops, 'fates': fates, 'race_op': race_op,
                 'race': {'ops_during': rng.randint(1, 4), 'delay': rng.choice([0.0, 0.05, 0.2]),
                          'stall_replay': rng.choice([0.0, 0.0, 0.015, 0.04])} if race else None,
-                'seq_change': seq_change, 'race_reload_at_end': rng.random() < 0.3}
+                'seq_change': seq_change, 'race_reload_at_end': (rng.choice([False, False, True]) if seq_change else
+                                                          rng.choice([False, False, True, 'report-first', 'report-first'])),
+                'reload_delay': rng.choice([0.0, 0.002, 0.006, 0.02])}
 
     # ------------------------------------------------------------------
     def body(self, ctx):
@@ -96,6 +99,17 @@ class C06(CheckBase):
                     ctx.probe('race_buffered')
                     list.append(self_, item)
             cm._buffered_notifications = _CountingList()
+            # every change of the consumer's MdibVersion is observed (not only the value at quiescent points)
+            regress = []
+            orig_upd = cm._update_from_mdib_version_group
+
+            def watched_update(vg):
+                before = (cm.mdib_version, cm.sequence_id)
+                orig_upd(vg)
+                if before[0] is not None and cm.mdib_version is not None and cm.sequence_id == before[1] \
+                        and cm.mdib_version < before[0]:
+                    regress.append((before[0], cm.mdib_version, threading.current_thread().name))
+            cm._update_from_mdib_version_group = watched_update
 
             class _StallingLock:
                 """slow-node fault at a chosen site: the thread that loads the MDIB is descheduled for a while right after it
@@ -215,16 +229,31 @@ class C06(CheckBase):
         if plan.get('race_reload_at_end') and ops:
             # reload while the provider keeps committing
             extra = ops[-1]
-            t = threading.Thread(target=lambda: self._reload(cm, ctx), name='reload')
-            t.start()
-            provider_op(dict(extra, id=extra['id'] + 1000))
-            t.join()
+            if plan.get('race_reload_at_end') == 'report-first':
+                # a report is on its way through the consumer (its handler thread may be descheduled right before it
+                # takes the MDIB lock) when the application starts the reload
+                ctx.probe('reload_overtakes_report')
+                s.stall_before(cm.mdib_lock, 0.5, (0.005, 0.03))
+                provider_op(dict(plan.get('race_op') or extra, id=extra['id'] + 1000))
+                provider_op(dict(extra, id=extra['id'] + 1001))  # (so that the reload fetches something newer)
+                s.sleep(plan.get('reload_delay', 0.002))
+                self._reload(cm, ctx)
+                s.stall_locks.clear()
+            else:
+                t = threading.Thread(target=lambda: self._reload(cm, ctx), name='reload')
+                t.start()
+                provider_op(dict(extra, id=extra['id'] + 1000))
+                t.join()
         else:
             self._reload(cm, ctx)
         if not w.settle(5.0):
             ctx.violation('C06.recover', 'no-quiescence', 'consumer not idle 5 virtual s after reload_all')
         ctx.probe('recover_checked')
         self._expect_mirror(ctx, w, cm, 'C06.recover', 'after reload_all with faults stopped')
+        if regress:
+            ctx.violation('C06.monotonic', 'mdibversion-transient',
+                          f'the consumer MdibVersion went backwards while a report was applied: {regress[:3]} '
+                          f'(old, new, thread)')
         if s.escaped:
             esc = s.escaped[0]
             ctx.violation('C06.lookups', f'exception-in-thread:{esc[1].split("(")[0]}', str(esc)[:1500])
